@@ -82,7 +82,7 @@ def main():
         detected = {}
         for c in checks:
             rc, out = run([PY, os.path.join(HERE, "run.py"), c, "--tier", args.tier],
-                          env={"OSYRIS_SRC": os.path.join(wt, "src")})
+                          env={"OSYRIS_SRC": os.path.join(wt, "src"), "VERIF_EVIDENCE_DIR": wt + "_ev"})
             viol = [l for l in out.splitlines() if l.startswith("VIOLATION") or l.strip().startswith("sub=")]
             detected[c] = {"rc": rc, "lines": viol[:4]}
             print("check", c, "rc", rc, viol[:2])
@@ -107,6 +107,7 @@ def main():
     finally:
         run(["git", "-C", "/repo", "worktree", "remove", "--force", wt])
         shutil.rmtree(wt, ignore_errors=True)
+        shutil.rmtree(wt + "_ev", ignore_errors=True)
 
 
 if __name__ == "__main__":
